@@ -32,6 +32,8 @@ pub struct GenCfg {
     pub op_weights: [u32; 5],
     /// edge ids (0, u32::MAX, ...) mixed into the pools
     pub edge_ids: bool,
+    /// probability (percent) that a build is cancelled at a small poll index (the round is then aborted)
+    pub cancel_pct: u32,
 }
 
 pub fn small_dims() -> Vec<(u32, Vec<usize>)> {
@@ -67,6 +69,7 @@ impl GenCfg {
             constant_split_after: false,
             op_weights: [60, 30, 6, 1, 0],
             edge_ids: true,
+            cancel_pct: 0,
         }
     }
 
@@ -158,15 +161,16 @@ fn op(cfg: &GenCfg, n_ix: usize) -> BoxedStrategy<Op> {
 }
 
 fn build_opts(cfg: &GenCfg, ix: usize) -> BoxedStrategy<BuildOpts> {
-    (weighted(&cfg.n_trees), weighted(&cfg.split_after), weighted(&cfg.avail_mem), any::<u64>(), select(cfg.threads.clone()))
-        .prop_map(move |(n_trees, split_after, avail_mem, rng_seed, threads)| BuildOpts {
+    let cancel_pct = cfg.cancel_pct;
+    (weighted(&cfg.n_trees), weighted(&cfg.split_after), weighted(&cfg.avail_mem), any::<u64>(), select(cfg.threads.clone()), 0u32..100, 0u64..400)
+        .prop_map(move |(n_trees, split_after, avail_mem, rng_seed, threads, p, k)| BuildOpts {
             ix,
             n_trees,
             split_after,
             avail_mem,
             rng_seed,
             threads,
-            cancel_at: None,
+            cancel_at: if p < cancel_pct { Some(k) } else { None },
         })
         .boxed()
 }
